@@ -446,7 +446,11 @@ func runProp[C any](t *testing.T, id string, check func(C, *Rec) *Violation, exh
 		})
 		if !ok {
 			if last == nil {
-				last = &replayFile{Property: id, Signature: id + ":harness", Detail: "rapid failed without a recorded case (generator problem?)"}
+				// a generator or harness problem, not a verdict about the code
+				// under test: the process exits non-zero without a violation
+				// record, which the driver reports as inconclusive (exit 2)
+				t.Errorf("HARNESS PROBLEM in %s/%s: rapid failed without a recorded case", id, p.name)
+				return
 			}
 			found = last
 			return
